@@ -50,6 +50,17 @@ def main():
             + (" NOT proved, decided by evaluation on real runs only: " + "; ".join(mon) + "." if mon else "")
             + (f" {nties} regeneration-tie theorems equate formulas re-extracted from /repo on every run with the "
                "hand model." if nties else ""))
+        if getattr(mod, "LEVEL_TEXT", None):
+            # a hand-written text can lag behind the registered strengths: append the generated list of
+            # everything that is NOT a full theorem (names; clauses are in the evidence file)
+            names = lambda c: ", ".join(t["name"] for t in mod.THEOREMS if _cat(t) == c)
+            extra = []
+            if part: extra.append("partial/conditional: " + names("partial"))
+            if byc: extra.append("by construction of the model: " + names("by-construction"))
+            if mon: extra.append("not proved, evaluated on real runs only: " + names("monitored"))
+            if nties: extra.append(f"{nties} regeneration-tie theorems")
+            if extra:
+                text = text.rstrip() + " [Registered non-full entries, generated from THEOREMS: " + "; ".join(extra) + ".]"
         checks.append({
             "property_id": pid,
             "quick_cmd": f"./check {pid} quick",
